@@ -1,5 +1,6 @@
 (* A headline property restated about the GENERATED code (coq/Gen/Funcs.v, produced from /repo/src by rs2v on
    every run): the property theorem of Props transported along the refinement lemmas. *)
+From Coq Require Import Permutation.
 From BV Require Import Alg.Field Alg.Dlog Sem.Base Model.Oracles Model.Helpers Model.Varint Model.Core
      Model.Protocols Model.Api Theory.CoreFacts Theory.Schemes Theory.Aggregate Gen.Consts Gen.Funcs Refine.Prelude Refine.Tactics
      Refine.SigCore Refine.SigSchemes Refine.WSig Props.C06.
@@ -16,6 +17,53 @@ Section G.
     honest_rhs K O C s sks <> f0 K ->
     gen_AggregateSignature_verify E (honest_aggregate K O C s sks) (honest_data K sks) = Val (Ok tt).
   Proof. intros. rewrite r_agg_verify. apply (C06_complete K laws O C dbg s sks); assumption. Qed.
+  (* C06, exactness: the translated verifier accepts exactly when the acceptance condition holds, for every list *)
+  Theorem generated_aggregate_verify_exact (a : tagged) (data : list (pt K Gpk * bytes)) :
+    (dbg = true -> hashes_nonzero K O (eff_data K O (tg_scheme a) data) (dst_of C (tg_scheme a))) ->
+    (gen_AggregateSignature_verify E a data = Val (Ok tt)
+     <-> (tg_scheme a = Basic -> NoDup (map snd data))
+         /\ dl (tg_pt a) <> f0 K /\ no_id_pk K data
+         /\ dl (tg_pt a) = agg_rhs K O (eff_data K O (tg_scheme a) data) (dst_of C (tg_scheme a))).
+  Proof. intros. rewrite r_agg_verify. apply (C06_verify_exact K laws O C dbg a data); assumption. Qed.
+
+  (* C06, in any order *)
+  Theorem generated_aggregate_permutation (a : tagged) (data data' : list (pt K Gpk * bytes)) :
+    (dbg = true -> hashes_nonzero K O (eff_data K O (tg_scheme a) data) (dst_of C (tg_scheme a))) ->
+    Permutation data data' ->
+    gen_AggregateSignature_verify E a data = Val (Ok tt) ->
+    gen_AggregateSignature_verify E a data' = Val (Ok tt).
+  Proof. intros H P. rewrite !r_agg_verify. apply (C06_permutation_invariant K laws O C dbg a data data'); assumption. Qed.
+
+  (* C06, Basic: a repeated message is refused whatever the aggregate point *)
+  Theorem generated_basic_rejects_repeated_message (p : pt K Gsig) (data : list (pt K Gpk * bytes)) :
+    ~ NoDup (map snd data) ->
+    gen_AggregateSignature_verify E (mktagged Basic p) data = Val (Err InvalidInputs).
+  Proof. intros. rewrite r_agg_verify. apply (C06_basic_rejects_repeated_message K O C dbg p data); assumption. Qed.
+
+  (* C06, TryFrom<&[Signature]> as translated: the plain sum, fewer than two refused, mixed schemes refused *)
+  Theorem generated_aggregate_is_sum (s0 s1 : tagged) (rest : list tagged) :
+    all_scheme K (tg_scheme s0) (s1 :: rest) ->
+    exists p, gen_AggregateSignature_try_from E (s0 :: s1 :: rest) = Val (Ok (mktagged (tg_scheme s0) p))
+              /\ dl p = dl (psum (map (@tg_pt K) (s0 :: s1 :: rest))).
+  Proof.
+    intros H. destruct (C06_aggregate_is_sum K laws s0 s1 rest H) as (p & Hp & Hd).
+    exists p. rewrite r_agg_try_from, Hp. split; [reflexivity | exact Hd].
+  Qed.
+
+  Theorem generated_aggregate_fewer_than_two (l : list (@tagged K)) :
+    (length l < 2)%nat -> gen_AggregateSignature_try_from E l = Val (Err InvalidSignature).
+  Proof. intros H. rewrite r_agg_try_from, (C06_fewer_than_two_refused K l H). reflexivity. Qed.
+
+  Theorem generated_aggregate_mixed_refused (s0 s1 : tagged) (rest : list tagged) :
+    ~ all_scheme K (tg_scheme s0) (s1 :: rest) ->
+    gen_AggregateSignature_try_from E (s0 :: s1 :: rest) = Val (Err InvalidSignatureScheme).
+  Proof. intros H. rewrite r_agg_try_from, (C06_mixed_schemes_refused K s0 s1 rest H). reflexivity. Qed.
 End G.
 
 Print Assumptions generated_aggregate_verifies.
+Print Assumptions generated_aggregate_verify_exact.
+Print Assumptions generated_aggregate_permutation.
+Print Assumptions generated_basic_rejects_repeated_message.
+Print Assumptions generated_aggregate_is_sum.
+Print Assumptions generated_aggregate_fewer_than_two.
+Print Assumptions generated_aggregate_mixed_refused.
